@@ -315,7 +315,8 @@ func (e *Engine) Load(name string) (*Template, error) {
 			}
 
 			LogError(ErrTemplateNotFound, errorDetails.String())
-			return nil, fmt.Errorf("%w: %s", ErrTemplateNotFound, errorDetails.String())
+			// Keep every loader's own error reachable through errors.Is / errors.As
+			return nil, fmt.Errorf("%w: template '%s' not found, tried %d loaders:\n%w", ErrTemplateNotFound, name, len(loaderErrors), errors.Join(loaderErrors...))
 		}
 
 		LogError(ErrTemplateNotFound, fmt.Sprintf("Template '%s' not found. No loaders configured.", name))
